@@ -424,6 +424,7 @@ func runCheck(prop, tier string) int {
 	var viols []violation
 	var inconcMsgs []string
 	raceReports := 0
+	inconcFiles := 0
 	sort.Slice(outcomes, func(i, j int) bool {
 		if outcomes[i].job.Part != outcomes[j].job.Part {
 			return outcomes[i].job.Part < outcomes[j].job.Part
@@ -443,6 +444,13 @@ func runCheck(prop, tier string) int {
 				inconclusive += r.Evals
 				if len(inconcMsgs) < 10 {
 					inconcMsgs = append(inconcMsgs, fmt.Sprintf("%s[%d]: %s", oc.job.Part, r.Idx, r.Msg))
+				}
+				if len(r.Replay) > 0 && inconcFiles < 6 {
+					inconcFiles++
+					rf := map[string]interface{}{"property": prop, "tier": tier, "seed": seed, "part": oc.job.Part, "index": r.Idx, "race": oc.job.Race, "procs": oc.job.Procs, "status": "inconclusive", "message": r.Msg, "replay": r.Replay, "witness": r.Witness}
+					b, _ := json.MarshalIndent(rf, "", " ")
+					_ = os.MkdirAll(filepath.Join(verifRoot, "replays"), 0o755)
+					_ = os.WriteFile(filepath.Join(verifRoot, "replays", fmt.Sprintf("%s-%d-inconclusive-%d.json", prop, seed, inconcFiles)), b, 0o644)
 				}
 			}
 			for _, x := range r.Extra {
